@@ -67,6 +67,10 @@ type vf6World struct {
 	// commands) and the snapshots real RDB files, so that the real
 	// RedisOutput.Send can replay them (schedules with send=real)
 	cmd bool
+	// a successor of id1 (attempt ops): history `b` is id1's below bSwitch, its own (seed sB) above
+	b       string
+	bSwitch int64
+	sB      uint64
 }
 
 const vf6CmdLen = 41
@@ -90,6 +94,9 @@ func (w *vf6World) tagAt(id string, n int64) byte {
 }
 
 func (w *vf6World) seedOf(id string) uint64 {
+	if w.b != "" && id == w.b {
+		return w.sB
+	}
 	if id == w.id1 {
 		return w.s1
 	}
@@ -101,6 +108,12 @@ func (w *vf6World) seedOf(id string) uint64 {
 
 // hist(id)[n]: the byte consumed when going from offset n to n+1
 func (w *vf6World) hist(id string, n int64) byte {
+	if w.b != "" && id == w.b {
+		if n < w.bSwitch {
+			return w.hist(w.id1, n)
+		}
+		return vf6Prf(w.sB, n)
+	}
 	if w.cmd {
 		if n < 0 {
 			return 0
@@ -156,12 +169,22 @@ type vf6Source struct {
 	k         int64 // bytes produced after the reply
 	heartbeat bool
 	w         *vf6World
+	// attempt ops (vf_c06_att_test.go): PSYNC answered by another source than INFO
+	// (fail-over in between), unusual snapshot headers, failing commands
+	psyncBy  *vf6Source
+	hdr      string        // "" = $<snapLen> (whatever its sign) ; "eof" = $EOF:<40 bytes> (diskless) ; "junk" = $abc
+	failInfo bool          // INFO is answered with an error
+	psyncErr string        // PSYNC is answered with this error line
+	errFirst *atomic.Int32 // the first n PSYNCs are answered with an error (scripted loop)
+	nInfo    *atomic.Int32 // INFO commands served (shared by copies)
+	cutAfter int64         // >0: after a FULLRESYNC header only this many snapshot bytes are sent, then the connection ends
 
 	mu     sync.Mutex
 	psync  []string // "<id> <off>" as received
 	reply  string   // canonical reply
 	conns  int
 	others []string
+	cutNow atomic.Bool
 }
 
 // Redis replication.c masterTryPartialResynchronization (independent of the Lean text)
@@ -222,6 +245,7 @@ func (s *vf6Source) serve(c net.Conn) {
 	s.mu.Unlock()
 	br := bufio.NewReader(c)
 	bw := bufio.NewWriter(c)
+	capaEof := false // this replica advertised `capa eof`: a diskless master (the default since Redis 7) answers $EOF:<40 bytes>
 	for {
 		args, err := vf6ReadCmd(br)
 		if err != nil {
@@ -234,6 +258,13 @@ func (s *vf6Source) serve(c net.Conn) {
 		case "ping":
 			bw.WriteString("+PONG\r\n")
 		case "info":
+			if s.nInfo != nil {
+				s.nInfo.Add(1)
+			}
+			if s.failInfo {
+				bw.WriteString("-ERR injected by the C06 harness\r\n")
+				break
+			}
 			body := "# Replication\r\nrole:master\r\nconnected_slaves:0\r\n" +
 				"master_failover_state:no-failover\r\n" +
 				"master_replid:" + s.id1 + "\r\n" +
@@ -245,6 +276,11 @@ func (s *vf6Source) serve(c net.Conn) {
 		case "replconf":
 			if len(args) > 1 && strings.ToLower(args[1]) == "ack" {
 				continue // no reply
+			}
+			for i := 1; i+1 < len(args); i += 2 {
+				if strings.ToLower(args[i]) == "capa" && strings.ToLower(args[i+1]) == "eof" {
+					capaEof = true
+				}
 			}
 			bw.WriteString("+OK\r\n")
 		case "psync":
@@ -260,34 +296,16 @@ func (s *vf6Source) serve(c net.Conn) {
 				bw.WriteString("-ERR value is not an integer or out of range\r\n")
 				break
 			}
-			final := s.master + s.k
-			if s.admit(args[1], off) {
-				if s.capaId {
-					fmt.Fprintf(bw, "+CONTINUE %s\r\n", s.id1)
-					s.setReply("cont:" + vfutil.HexS(s.id1))
-				} else {
-					bw.WriteString("+CONTINUE\r\n")
-					s.setReply("cont:-")
-				}
-				bw.Flush()
-				// backlog from the requested byte (number off = index off-1) to the end, then live bytes
-				bw.Write(s.w.histRange(s.id1, off-1, final))
-			} else {
-				if s.heartbeat {
-					bw.WriteString("\n")
-					bw.Flush()
-				}
-				fmt.Fprintf(bw, "+FULLRESYNC %s %d\r\n", s.id1, s.master)
-				s.setReply(fmt.Sprintf("full:%s:%d", vfutil.HexS(s.id1), s.master))
-				bw.Flush()
-				if s.heartbeat {
-					bw.WriteString("\n")
-				}
-				fmt.Fprintf(bw, "$%d\r\n", s.snapLen)
-				bw.Write(s.w.snapBytes(s.id1, s.master, s.snapLen))
-				bw.Flush()
-				bw.Write(s.w.histRange(s.id1, s.master, final))
+			if s.psyncErr != "" || (s.errFirst != nil && s.errFirst.Add(-1) >= 0) {
+				bw.WriteString("-ERR injected by the C06 harness " + s.psyncErr + "\r\n")
+				break
 			}
+			if s.psyncBy != nil {
+				// the source failed over after INFO: its successor answers
+				s.psyncBy.servePsync(bw, args[1], off, s, capaEof)
+				break
+			}
+			s.servePsync(bw, args[1], off, s, capaEof)
 		default:
 			s.mu.Lock()
 			s.others = append(s.others, strings.Join(args, " "))
@@ -297,7 +315,65 @@ func (s *vf6Source) serve(c net.Conn) {
 		if err := bw.Flush(); err != nil {
 			return
 		}
+		if s.cutAfter > 0 && s.cutNow.Load() {
+			return
+		}
 	}
+}
+
+// servePsync answers PSYNC with s's parameters and history; the reply is recorded on `rec`
+// (the source the connection was accepted for)
+func (s *vf6Source) servePsync(bw *bufio.Writer, reqId string, off int64, rec *vf6Source, capaEof bool) {
+	final := s.master + s.k
+	if s.admit(reqId, off) {
+		if s.capaId {
+			fmt.Fprintf(bw, "+CONTINUE %s\r\n", s.id1)
+			rec.setReply("cont:" + vfutil.HexS(s.id1))
+		} else {
+			bw.WriteString("+CONTINUE\r\n")
+			rec.setReply("cont:-")
+		}
+		bw.Flush()
+		// backlog from the requested byte (number off = index off-1) to the end, then live bytes
+		bw.Write(s.w.histRange(s.id1, off-1, final))
+		return
+	}
+	if s.heartbeat {
+		bw.WriteString("\n")
+		bw.Flush()
+	}
+	fmt.Fprintf(bw, "+FULLRESYNC %s %d\r\n", s.id1, s.master)
+	rec.setReply(fmt.Sprintf("full:%s:%d", vfutil.HexS(s.id1), s.master))
+	bw.Flush()
+	if s.heartbeat {
+		bw.WriteString("\n")
+	}
+	snap := s.w.snapBytes(s.id1, s.master, s.snapLen)
+	hdr := rec.hdr
+	if capaEof && hdr == "" {
+		hdr = "eof"
+	}
+	switch hdr {
+	case "eof":
+		// diskless transfer: $EOF:<40 random bytes>, payload, the same 40 bytes
+		mark := strings.Repeat("7", 40)
+		fmt.Fprintf(bw, "$EOF:%s\r\n", mark)
+		bw.Write(snap)
+		bw.WriteString(mark)
+	case "junk":
+		bw.WriteString("$abc\r\n")
+		bw.Write(snap)
+	default:
+		fmt.Fprintf(bw, "$%d\r\n", s.snapLen)
+		if rec.cutAfter > 0 && rec.cutAfter < int64(len(snap)) {
+			bw.Write(snap[:rec.cutAfter])
+			rec.cutNow.Store(true)
+			return
+		}
+		bw.Write(snap)
+	}
+	bw.Flush()
+	bw.Write(s.w.histRange(s.id1, s.master, final))
 }
 
 func (s *vf6Source) setReply(r string) { s.mu.Lock(); s.reply = r; s.mu.Unlock() }
@@ -1448,6 +1524,7 @@ type vf6RealOut struct {
 	tg       *vfdoubles.Target
 	patience *atomic.Int64
 	missed   *atomic.Bool
+	onSend   func() // called when Send is entered (request-level cut schedules: where the replay begins in the target's log)
 }
 
 // storedOffset reads the position the output currently holds for run id `id`
@@ -1590,6 +1667,9 @@ func (o *vf6RealOut) ResetStartPoint(ctx context.Context, ids []string) error {
 }
 func (o *vf6RealOut) Close() {}
 func (o *vf6RealOut) Send(ctx context.Context, reader ChannelReader) error {
+	if o.onSend != nil {
+		o.onSend()
+	}
 	if o.realSend {
 		return o.sendReal(ctx, reader)
 	}
@@ -2366,6 +2446,9 @@ func TestVerifC06(t *testing.T) {
 	}
 
 	for _, l := range vfutil.Corpus("C06") {
+		if strings.HasPrefix(l, "att ") || strings.HasPrefix(l, "cut ") {
+			continue // session C06c (vf_c06_att_test.go)
+		}
 		if strings.HasPrefix(l, "fault ") {
 			// fault <plan> <rounds> sync … : the first round's bookkeeping call <plan> fails, then <rounds>-1 more connections
 			f := strings.SplitN(l, " ", 4)
